@@ -4,6 +4,10 @@ import json, subprocess
 props=[json.loads(l)['id'] for l in open('/verif/properties.jsonl')]
 fix_commits=subprocess.run(['git','-C','/repo','log','--format=%h %s','--grep=^fix:'],capture_output=True,text=True).stdout.strip().splitlines()
 claimed = {
+ "C15": dict(
+   text="Bounded symbolic model checking of partition.Read, gpt.Read, mbr.Read and their parsers on arbitrary bytes: (a) Read on devices whose every byte is an uninterpreted function of the offset, for device sizes 0..32 KiB (case-split) incl. truncated ones, (b) a forged primary header with recomputed CRC and arbitrary LBAs/count/entry size, (c) loadEntries with every geometry field symbolic, (d) readPartitionArrayBytes for entry sizes 0,1,127,128,129,256,2^31, (e) partitionFromBytes and readGPTHeader on arbitrary bytes. Obligations: no panic (every bounds/nil/divide/makeslice check is a solver query), every make() <= 2*device size + 4 MiB, symbolic loops <= 38-40 iterations and concrete loops terminate, a table is only returned for CRC-matching bytes and lists no partition from bytes the CRC does not cover.",
+   note="Bounds: at most 1 (quick) / 2 (thorough) used entries decoded per array harness (the entry decoder is checked separately for an arbitrary entry, which covers every slot by the slot loop's independence), device sizes and sector sizes case-split, utf16.Decode of symbolic units over-approximated by arbitrary runes, CRC32 congruent UF. Process-level memory caps/deadlines of the property are represented by the allocation and loop obligations.",
+   ref="6.C15"),
  "C02": dict(
    text="Bounded symbolic model checking of the real encode/decode paths: mbr Table.Write -> mbr.Read with 0/1/4 partitions whose every field (type, start, size, CHS, boot flag) is a solver variable over an arbitrary pre-existing sector 0; gpt Table.Write -> gpt.Read on disks of 35 KiB, 1 MiB, 1 GiB (4096-byte sectors) and 3 TiB with two partitions whose start/end/size/attributes are 64-bit solver variables (two of the three accepted spellings), plus an independent field-by-field parse of both headers, both arrays and the protective MBR written in the harness from the UEFI layout; gpt entry codec with names of 0/1/35/36 UTF-16 units incl. non-BMP runes; decode->encode identity for every 512-byte sector mbr.Read accepts.",
    note="Bounds: gpt partition indices, names, GUIDs and disk sizes are case-split concrete values (map lookups on symbolic indices and symbolic GUID strings are outside the encoder's reach); at most 2 gpt / 4 mbr partitions are simultaneously symbolic. CRC32 is modelled as a congruent uninterpreted function (the harness checks equality of the stored CRCs with the CRC of the stored bytes by calling the same function). Disk.GetPartition glue is covered through GetStart/GetSize only.",
